@@ -1277,6 +1277,10 @@ def judge_with_reference(case, real, tags, mon, differ_cls, try_orders=False):
             break
     refd = ref[:2] if ref[0] == "err" else "ok table"
     reald = real[:3] if real[0] == "err" else "ok table"
+    if not found and loose:      # an exact reproduction is preferred to "took effect, then undecided"
+        found = loose
+        tags.append("ref:known-defect-then-unspecified")
+    # only when no known defect takes effect on this input: is the outcome that of another order of the same conditions?
     if not found and try_orders and 2 <= len(case["filters"]) <= 5:
         for perm in itertools.permutations(range(len(case["filters"]))):
             if list(perm) == sorted(perm):
@@ -1293,9 +1297,6 @@ def judge_with_reference(case, real, tags, mon, differ_cls, try_orders=False):
                                     f"{refd}; the real outcome is what the order {[case['filters'][i][3] for i in perm]} gives"})
                 tags.append("ref:order-defect")
                 return
-    if not found and loose:      # an exact reproduction is preferred to "took effect, then undecided"
-        found = loose
-        tags.append("ref:known-defect-then-unspecified")
     if found:
         for fl in found:
             mon.append({"cls": EMU_CLASS[fl], "what": f"reader gives {reald}, documented rules give {refd}; "
